@@ -206,6 +206,11 @@ def run(res, tier, seed, replay):
         if c.startswith("U ty "):
             uni["ty_of_kind"][f[4].split("=")[1]] = f[2]
             uni["ty_deps"][f[2]] = [x for x in f[5].split("=", 1)[1].split(",") if x and x != f[2]]
+    # hypothesis of step_no_panic_live / reach_acyclic: UniverseWF (every in-range dependency of type t has index <= t)
+    wf_bad = [(t, d) for t, ds in uni["ty_deps"].items() for d in ds if int(d) < len(uni["ty_deps"]) and int(d) > int(t)]
+    res.coverage["universe_wf"] = not wf_bad
+    if wf_bad:
+        res.violation(dict(kind="machinery-error", what="case universe violates UniverseWF (hypothesis of the no-panic theorems)", detail=wf_bad), no_input=True)
     nh = 0; steps = 0; disagreements = []; prop_fail = []; shapes = set(); opkinds = {}; outcomes = {}
     for c, i, m in zip(cases, impl, model):
         if not c.startswith("H "):
